@@ -547,3 +547,42 @@ pub fn loop_ref_template(r: &mut Rng) -> (Vec<String>, &'static str) {
     }
     (out, if depth == 2 { "tmpl-loop-ref-nested" } else { "tmpl-loop-ref" })
 }
+
+/// Templated programs around access groups: one referenced singleton/optional, 2..3 explicit access groups with
+/// 1..2 borrowers each, borrowers wired from their own source or chained behind another borrower (a borrower of a
+/// later group feeding one of an earlier group is a same-tick cycle that must be rejected; every member of an
+/// earlier group must be ordered before every member of the next group).
+pub fn access_group_template(r: &mut Rng) -> (Vec<String>, &'static str) {
+    let kind = *r.pick(&["singleton()", "optional()"]);
+    let ngroups = r.range(2, 3);
+    let mut members: Vec<(u64, String)> = Vec::new(); // (group, name)
+    for g in 0..ngroups {
+        for i in 0..r.range(1, 2) {
+            members.push((g, format!("m{g}_{i}")));
+        }
+    }
+    let mut stmts: Vec<String> = vec![format!("s = source_iter([2]) -> {kind};")];
+    let mut fed: Vec<bool> = vec![false; members.len()]; // output already consumed by another borrower
+    for (k, (g, name)) in members.iter().enumerate() {
+        stmts.push(format!("{name} = map(|x| {{ let _ = #{{{g}}} s; x }});"));
+        // input: own source, or the output of another borrower that is still unconsumed
+        let cands: Vec<usize> = (0..members.len()).filter(|&j| j != k && !fed[j]).collect();
+        if !cands.is_empty() && r.chance(1, 2) {
+            let j = *r.pick(&cands);
+            fed[j] = true;
+            stmts.push(format!("{} -> {name};", members[j].1));
+        } else {
+            stmts.push(format!("source_iter([1]) -> {name};"));
+        }
+    }
+    for (k, (_, name)) in members.iter().enumerate() {
+        if !fed[k] {
+            stmts.push(format!("{name} -> for_each(|_| ());"));
+        }
+    }
+    for i in (1..stmts.len()).rev() {
+        let j = r.below(i as u64 + 1) as usize;
+        stmts.swap(i, j);
+    }
+    (stmts.into_iter().map(|s| format!("s {s}")).collect(), "tmpl-access-groups")
+}
